@@ -346,7 +346,7 @@ pub struct Plane {
 impl Plane {
     /// The XY plane
     pub const XY: Self = Plane {
-        axis: Axis::Y,
+        axis: Axis::Z,
         offset: 0.0,
     };
     /// The YZ plane
